@@ -276,6 +276,124 @@ pub fn build_message(rng: &mut Rng, fams: &[Family], ext_nh: bool) -> bgp::Messa
     }
 }
 
+/// A well-framed UPDATE whose MP_REACH_NLRI / MP_UNREACH_NLRI body is written by hand for families
+/// the constructors above do not cover (BGP-LS, MUP, flowspec-VPN, ...) or cover only in their
+/// canonical shapes: type-length-value structures whose inner lengths are mostly right and sometimes
+/// one short or one long, so that the per-family NLRI decoders see self-consistent frames with
+/// inconsistent insides.
+pub fn raw_update_frame(rng: &mut Rng, family: Family) -> Vec<u8> {
+    fn tlv(t: u16, v: &[u8], skew: i64) -> Vec<u8> {
+        let mut b = t.to_be_bytes().to_vec();
+        b.extend_from_slice(&(((v.len() as i64 + skew).max(0)) as u16).to_be_bytes());
+        b.extend_from_slice(v);
+        b
+    }
+    let skew = |rng: &mut Rng| -> i64 { *rng.pick(&[0i64, 0, 0, 0, 0, -1, 1, -2, 3]) };
+    let mut nlri: Vec<u8> = Vec::new();
+    let n = rng.range(1, 3);
+    for _ in 0..n {
+        if family == Family::LS {
+            // NLRI type 1 node, 2 link, 3 IPv4 prefix, 4 IPv6 prefix
+            let t = rng.range(1, 4) as u16;
+            let mut body = vec![rng.range(1, 7) as u8];
+            body.extend_from_slice(&rng.next_u64().to_be_bytes());
+            let node_desc = |rng: &mut Rng| -> Vec<u8> {
+                let mut d = Vec::new();
+                if rng.chance(4, 5) {
+                    let s = skew(rng);
+                    d.extend(tlv(512, &65001u32.to_be_bytes(), s));
+                }
+                if rng.chance(1, 2) {
+                    let s = skew(rng);
+                    d.extend(tlv(513, &1u32.to_be_bytes(), s));
+                }
+                if rng.chance(4, 5) {
+                    let s = skew(rng);
+                    let id: Vec<u8> = (0..*rng.pick(&[4usize, 6, 7, 8])).map(|k| k as u8 + 1).collect();
+                    d.extend(tlv(515, &id, s));
+                }
+                d
+            };
+            let nd = node_desc(rng);
+            let s = skew(rng);
+            body.extend(tlv(256, &nd, s));
+            if t == 2 {
+                let rd = node_desc(rng);
+                let s = skew(rng);
+                body.extend(tlv(257, &rd, s));
+                if rng.chance(1, 2) {
+                    let s = skew(rng);
+                    body.extend(tlv(258, &[0, 0, 0, 1, 0, 0, 0, 2], s));
+                }
+                if rng.chance(1, 2) {
+                    let s = skew(rng);
+                    body.extend(tlv(259, &[10, 0, 0, 1], s));
+                }
+                if rng.chance(1, 3) {
+                    let s = skew(rng);
+                    body.extend(tlv(261, &[0x20, 1, 0xd, 0xb8, 0, 0, 0, 0, 0, 0, 0, 0, 0, 0, 0, 1], s));
+                }
+            }
+            if t >= 3 {
+                if rng.chance(1, 3) {
+                    let s = skew(rng);
+                    body.extend(tlv(263, &[0, 2], s));
+                }
+                if rng.chance(1, 3) {
+                    let s = skew(rng);
+                    body.extend(tlv(264, &[1], s));
+                }
+                // IP reachability: prefix length + the octets it needs (or one fewer / one more)
+                let plen = if t == 3 { *rng.pick(&[0u8, 8, 24, 25, 32, 33]) } else { *rng.pick(&[0u8, 48, 64, 127, 128, 129]) };
+                let need = (plen as usize).div_ceil(8);
+                let have = (need as i64 + *rng.pick(&[0i64, 0, 0, -1, 1])).max(0) as usize;
+                let mut v = vec![plen];
+                v.extend((0..have).map(|k| 10 + k as u8));
+                let s = skew(rng);
+                body.extend(tlv(265, &v, s));
+            }
+            let s = skew(rng);
+            let mut rec = t.to_be_bytes().to_vec();
+            rec.extend_from_slice(&(((body.len() as i64 + s).max(0)) as u16).to_be_bytes());
+            rec.extend(body);
+            nlri.extend(rec);
+        } else {
+            // length-prefixed blob with a small inner structure
+            let l = rng.range(0, 40) as usize;
+            let mut v: Vec<u8> = (0..l).map(|_| rng.next_u32() as u8).collect();
+            if !v.is_empty() && rng.chance(2, 3) {
+                v[0] = *rng.pick(&[1u8, 2, 3, 4, 5]);
+            }
+            let s = skew(rng);
+            nlri.push(((v.len() as i64 * if rng.coin() { 8 } else { 1 } + s).clamp(0, 255)) as u8);
+            nlri.extend(v);
+        }
+    }
+    let reach = rng.chance(3, 4);
+    let mut mp = Vec::new();
+    mp.extend_from_slice(&family.afi().to_be_bytes());
+    mp.push(family.safi());
+    if reach {
+        let nh: Vec<u8> = if rng.coin() { vec![192, 0, 2, 1] } else { vec![0x20, 1, 0xd, 0xb8, 0, 0, 0, 0, 0, 0, 0, 0, 0, 0, 0, 1] };
+        mp.push(nh.len() as u8);
+        mp.extend(nh);
+        mp.push(0);
+    }
+    mp.extend(nlri);
+    let mut attrs: Vec<u8> = vec![0x40, 1, 1, 0, 0x40, 2, 6, 2, 1, 0, 0, 0xfd, 0xe9];
+    attrs.extend_from_slice(&[0x90, if reach { 14 } else { 15 }]);
+    attrs.extend_from_slice(&(mp.len() as u16).to_be_bytes());
+    attrs.extend(mp);
+    let mut f = vec![0xffu8; 16];
+    let total = 19 + 2 + 2 + attrs.len();
+    f.extend_from_slice(&(total as u16).to_be_bytes());
+    f.push(2);
+    f.extend_from_slice(&[0, 0]);
+    f.extend_from_slice(&(attrs.len() as u16).to_be_bytes());
+    f.extend(attrs);
+    f
+}
+
 // ---- transport faults ------------------------------------------------------------------------
 
 /// Locate length fields of a BGP frame: (offset, width in bytes, description).
@@ -522,6 +640,19 @@ impl Check for BgpStreams {
                     frames.push(buf[i..i + l].to_vec());
                     i += l;
                 }
+            }
+        }
+        // hand-written NLRI bodies for the families the constructors do not reach
+        if rng.chance(1, 3) {
+            let f = *rng.pick(&[Family::LS, Family::LS, Family::LS, Family::IPV4_MUP, Family::IPV6_MUP, Family::IPV4_FLOWSPEC, Family::IPV6_FLOWSPEC, Family::IPV4_FLOWSPEC_VPN, Family::IPV6_FLOWSPEC_VPN, Family::IPV4_SRPOLICY, Family::L2VPN_EVPN, Family::RTC, Family::IPV4_VPN, Family::IPV6_MPLS]);
+            if !fams.contains(&f) {
+                fams.push(f);
+                case.set("fams", caps_json(&fams.iter().map(|f| fam_to_u(*f)).collect::<Vec<_>>()));
+            }
+            let fr = raw_update_frame(&mut rng, f);
+            if fr.len() <= 4096 {
+                let at = rng.usize_below(frames.len() + 1);
+                frames.insert(at, fr);
             }
         }
         if frames.is_empty() {
